@@ -37,6 +37,8 @@ class DCheck:
         prog = self.make_program(ch, tier) if self.make_program else gen_program(ch, self.profile)
         knobs = swarm_knobs(ch, **self.knob_over)
         opts = swarm_opts(ch, self.reorder, self.lost_ack)
+        if getattr(self, "inorder_share", 0.0) > 0 and ch.flip("o.inorder", self.inorder_share):
+            opts = DOpts()      # plain in-order, exactly-once delivery for this run
         info: dict[str, Any] = {"opts": dict(opts.__dict__), "knobs": knobs.to_dict()}
         ref = None
         if self.need_ref:
